@@ -114,7 +114,9 @@ def gen_frame_spec(rng, geom=None, routes=None):
     spec = {"route": route, "geom": g, "seed": gen_seed(rng),
             "t_start": rng.choice([0.0, 1.7e9, 1.5e9 + 0.25, 59000.5 * 86400 - 3506716800.0 + 40587 * 0]),
             "mjd": rng.choice([None, None, 59000.5, 60123.123456]),
-            "source_name": rng.choice([None, "Synthetic", "VOYAGER1", "TIC 1234"]),
+            "source_name": rng.choice([None, "Synthetic", "VOYAGER1", "TIC 1234", "TIC 1234", "X",
+                                       # long, descriptive labels are valid source names too
+                                       "injection test 0042: drifting narrow-band tone, 3.1 Hz/s, SNR 25, on top of GBT C-band off-source noise, v2"]),
             "content_seed": rng.randrange(1 << 30)}
     return spec
 
